@@ -69,19 +69,19 @@ def conv_cases(tab, quick, rnd):
     return cs
 
 
-def binop_cases(tab, quick, rnd, kinds):
+def binop_cases(tab, quick, rnd, kinds, npairs=1500, powers=True):
     cs = []
     syms = [u['s'] for u in tab]
     pairs = list(itertools.product(syms, syms))
     if quick:
-        pairs = rnd.sample(pairs, 1500)
+        pairs = rnd.sample(pairs, npairs)
     for (s1, s2) in pairs:
-        for op in ('mul', 'div'):
+        for op in ('mul', 'div', 'mul'):      # each operation also after the other one (what one caches the other must not use)
             for (k1, k2) in kinds:
                 a1, a2 = rnd.choice([F(3), F(1, 2), F(-4), F(8)]), rnd.choice([F(2), F(1, 4), F(16)])
                 cs.append(dict(op=op, x=dict(kind=k1, s=s1, a=V(a1 if k1 == 'q' else 1)),
                                y=dict(kind=k2, s=s2, a=V(a2 if k2 == 'q' else 1))))
-    for s in syms:
+    for s in (syms if powers else []):
         for n in range(-3, 4):
             cs.append(dict(op='pow', x=dict(kind='u', s=s, a=V(1)), n=n))
             cs.append(dict(op='pow', x=dict(kind='q', s=s, a=V(F(2))), n=n))
@@ -240,9 +240,14 @@ def run(ctx):
                  'hecto', 'kilo', 'mega', 'giga', 'tera', 'peta', 'exa', 'zetta', 'yotta']
     cs += [dict(op='prefix', name=n) for n in from_spec]
     cs += conv_cases(tab, quick, rnd)
+    # compound units: products and quotients of predefined units in both orders of evaluation
+    cs += binop_cases(tab, True, rnd, [('u', 'u'), ('q', 'q')], npairs=300 if quick else 3000, powers=False)
     judge(ctx, cs, 'catalogue')
     from checks import c14
     c14.doc_stage(ctx)
+    # conversions of quantities that came out of allocate() (DataVolume: portions adjusted by the dispersal)
+    from checks import bcalccheck
+    bcalccheck.run_cases(ctx, bcalccheck.alloc_convert_cases(ctx), 'allocated-portions')
     ctx.exhaustive['catalogue units/prefixes/doc rows/unit pairs'] = True
 
 
@@ -253,6 +258,9 @@ def replay(ctx, rp):
         c14.replay(ctx, rp)
     elif r.get('kind') == 'catalogue-plain':
         confirm_plain(ctx, r['cases'], 'replay')
+    elif str(r.get('kind')).startswith('bcalc'):
+        from checks import bcalccheck
+        bcalccheck.replay(ctx, rp)
     else:
         judge(ctx, [dict(r['case'])], 'replay', docs=False)
 
